@@ -5,6 +5,6 @@ ls seeded | sed 's/-m.*//' | sort -u > /var/tmp/remut-props.txt
 run() { P=$1; for d in seeded/$P-m*; do n=$(basename $d); python3 tools/mutlab.py $n $d/patch.diff $d/demo.py $P > /var/tmp/remut-$n.log 2>&1; echo "$n $(grep -c DETECTED /var/tmp/remut-$n.log) $(grep -o '"confirmed": [a-z]*' /var/tmp/remut-$n.log)"; done; }
 for P in $(cat /var/tmp/remut-props.txt); do
   run $P &
-  while [ $(jobs -r | wc -l) -ge 4 ]; do sleep 5; done
+  while [ $(jobs | grep -c Running) -ge 4 ]; do sleep 5; done
 done
 wait
